@@ -12,6 +12,7 @@ import (
 	"google.golang.org/grpc/status"
 
 	"github.com/oxia-db/oxia/common/constant"
+	oxtime "github.com/oxia-db/oxia/common/time"
 	"github.com/oxia-db/oxia/proto"
 	"github.com/oxia-db/oxia/server"
 	"github.com/oxia-db/oxia/server/kv"
@@ -66,7 +67,10 @@ type Node struct {
 	WalF     *shard.WalFactory
 	Director server.ShardsDirector
 	mu       sync.Mutex
-	down     bool
+	down     atomic.Bool
+	// gate: requests whose answer promises something kept in the database (NewTerm, DeleteShard) hold it shared;
+	// Crash takes it exclusively, so that no such answer is given between the crash image and the stop.
+	gate sync.RWMutex
 }
 
 func New(dir string, n int, segSize int32, notifications bool) (*Cluster, error) {
@@ -161,18 +165,24 @@ func (n *Node) open() error {
 	}
 	n.WalF = shard.NewWalFactory(filepath.Join(n.dir, "wal"), n.c.SegSize)
 	n.Director = server.NewShardsDirector(server.Config{NotificationsRetentionTime: time.Hour}, n.WalF, n.KVF, &provider{n: n})
-	n.down = false
+	n.down.Store(false)
 	return nil
 }
 
 // Stop closes the node gracefully (controllers, factories).
 func (n *Node) Stop() {
+	n.gate.Lock()
+	defer n.gate.Unlock()
+	n.stop()
+}
+
+func (n *Node) stop() {
 	n.mu.Lock()
 	defer n.mu.Unlock()
-	if n.down {
+	if n.down.Load() {
 		return
 	}
-	n.down = true
+	n.down.Store(true)
 	// break every stream from/to this node first
 	for _, other := range n.c.Nodes {
 		n.c.Link(n.Name, other.Name).Cut()
@@ -185,7 +195,9 @@ func (n *Node) Stop() {
 
 // Restart stops the node and opens it again on the same directories (a clean process restart).
 func (n *Node) Restart() error {
-	n.Stop()
+	n.gate.Lock()
+	defer n.gate.Unlock()
+	n.stop()
 	n.mu.Lock()
 	defer n.mu.Unlock()
 	return n.open()
@@ -193,17 +205,105 @@ func (n *Node) Restart() error {
 
 // Wipe stops the node, removes its data and opens it empty.
 func (n *Node) Wipe() error {
-	n.Stop()
+	n.gate.Lock()
+	defer n.gate.Unlock()
+	n.stop()
 	n.mu.Lock()
 	defer n.mu.Unlock()
 	_ = os.RemoveAll(n.dir)
 	return n.open()
 }
 
-func (n *Node) Down() bool {
+// Crash emulates a process crash: the database comes back as what it had flushed at this instant (Pebble runs
+// without its own WAL), the log files stay as they are (mmap-ed, the page cache survives a process crash).
+func (n *Node) Crash() error {
+	n.gate.Lock()
+	defer n.gate.Unlock()
+	img := n.dir + ".img"
+	_ = os.RemoveAll(img)
+	have := false
+	func() {
+		defer func() { _ = recover() }()
+		if k := n.KV(); k != nil {
+			if cp, ok := k.(interface{ VerifCheckpoint(string) error }); ok && cp.VerifCheckpoint(img) == nil {
+				have = true
+			}
+		}
+	}()
+	n.stop()
 	n.mu.Lock()
 	defer n.mu.Unlock()
-	return n.down
+	if have {
+		dbDir := filepath.Join(n.dir, "db", Namespace, fmt.Sprintf("shard-%d", n.c.Shard))
+		_ = os.RemoveAll(dbDir)
+		if err := os.Rename(img, dbDir); err != nil {
+			return err
+		}
+	}
+	return n.open()
+}
+
+// FlushedTerm returns the term that the node's database would come back with after a process crash right now
+// (ok=false when no image could be taken, e.g. the database is closed or absent).
+func (n *Node) FlushedTerm() (term int64, ok bool) {
+	n.gate.RLock()
+	defer n.gate.RUnlock()
+	if n.Down() {
+		return 0, false
+	}
+	defer func() {
+		if recover() != nil {
+			ok = false
+		}
+	}()
+	k := n.KV()
+	if k == nil {
+		return 0, false
+	}
+	cp, is := k.(interface{ VerifCheckpoint(string) error })
+	if !is {
+		return 0, false
+	}
+	img, err := os.MkdirTemp("", "term-img-")
+	if err != nil {
+		return 0, false
+	}
+	defer os.RemoveAll(img)
+	if cp.VerifCheckpoint(filepath.Join(img, Namespace, fmt.Sprintf("shard-%d", n.c.Shard))) != nil {
+		return 0, false
+	}
+	f, err := shard.NewKVFactory(img)
+	if err != nil {
+		return 0, false
+	}
+	defer f.Close()
+	db, err := kv.NewDB(Namespace, n.c.Shard, f, time.Hour, oxtime.SystemClock)
+	if err != nil {
+		return 0, false
+	}
+	defer db.Close()
+	t, _, err := db.ReadTerm()
+	if err != nil {
+		return 0, false
+	}
+	return t, true
+}
+
+func (n *Node) DeleteShard(req *proto.DeleteShardRequest) (*proto.DeleteShardResponse, error) {
+	if n.Down() {
+		return nil, errNodeDown
+	}
+	n.gate.RLock()
+	defer n.gate.RUnlock()
+	res, err := n.Director.DeleteShard(req)
+	if err == nil {
+		n.c.Log(Event{Kind: "delete-shard-ok", Node: n.Name, Term: req.Term})
+	}
+	return res, err
+}
+
+func (n *Node) Down() bool {
+	return n.down.Load()
 }
 
 var errNodeDown = status.Error(constant.CodeNodeIsNotLeader, "harness: node is down")
@@ -238,6 +338,11 @@ func (n *Node) KV() kv.KV    { return n.KVF.KV(n.c.Shard) }
 // The methods below mirror server/internal_rpc_server.go.
 
 func (n *Node) NewTerm(req *proto.NewTermRequest) (*proto.NewTermResponse, error) {
+	if n.Down() {
+		return nil, errNodeDown
+	}
+	n.gate.RLock()
+	defer n.gate.RUnlock()
 	if n.Down() {
 		return nil, errNodeDown
 	}
